@@ -171,8 +171,8 @@ Proof. vm_compute. repeat split. eexists. split; reflexivity. Qed.
 Definition f_qt := mk "fq" (OInst "c10_classes.Root" [("d", OStr "it's")]) [] false.
 Definition p_quote := PCmp ["d"] CEq (KStr "it's").
 Example quote_refuted :
-  eval p_quote f_qt = true /\ model_query current [f_qt] p_quote = Err ESql /\
-  (exists l, model_query repaired [f_qt] p_quote = Ok l /\ map fid l = ["fq"]).
+  eval p_quote f_qt = true /\ model_query prequote [f_qt] p_quote = Err ESql /\
+  (exists l, model_query current [f_qt] p_quote = Ok l /\ map fid l = ["fq"]).
 Proof. vm_compute. repeat split. eexists. split; reflexivity. Qed.
 
 (* search.name.contains("F0") / contains("_0") select the fit named "f0" *)
@@ -214,3 +214,10 @@ Example canonical_ops_example :
   ids_of (run_ops current false db5
             (OQuery p_ok2 :: order_ops [(OIdKey, true)] ++ slice_ops [(Some 1%Z, None)])) = ["f0"].
 Proof. vm_compute. reflexivity. Qed.
+
+Lemma prequote_refuted :
+  exists p f, eval p f = true /\ model_query prequote [f] p = Err ESql /\
+              exists l, model_query current [f] p = Ok l /\ map fid l = [fid f].
+Proof.
+  exists p_quote, f_qt. destruct quote_refuted as [H1 [H2 H3]]. repeat split; assumption.
+Qed.
